@@ -18,7 +18,13 @@ exception.  The restart fixed point is exercised with the real `REPEX_state.writ
 route with restart files written by the real write_toml and by real runs (py/sysharness.py), each
 edited in every way of the property's list; the order of normalisation and validation with the
 product of all fields the defaults touch (quantis, [engine0], [engine], ensemble_engines,
-lambda_minus_one, seed, accept_all) on directories in which the program has really run.
+lambda_minus_one, seed, accept_all) on directories in which the program has really run.  Explicit
+ensemble_engines lists of every length 0 .. n+1 are generated in all four blocks: a list with fewer
+entries than interfaces is invalid (an ensemble without an entry: its first pick indexes the list out
+of range), longer lists are valid and must initialise.  The model carries the code with and without
+the length test of proposed_fixes/C18_short_ensemble_engines.diff; one probing call of the real
+check_config (`probe_variant`) selects which of the two the lock-step uses, the oracle always demands
+the repaired behaviour.
 
 Robustness: every call into the implementation is guarded; an exception or an answer outside its
 domain (None, a malformed configuration, a configuration error on the program's own restart file)
@@ -41,8 +47,8 @@ META = {
     "id": "C18",
     "level": "proof",
     "technique": "Coq theorems over an executable model of check_config/setup_config defaults (decision procedure with explicit Python truthiness and exceptions) + exhaustive small-scope lock-step of the extracted model vs the real check_config / setup_config",
-    "text": "Unbounded theorems (any interface list over Q, worker count, move list, cap, lambda_minus_one, quantis, engine lists and tables): accepted => valid; invalid => configuration error that truthfully names a violated clause, never acceptance, never another exception; no IndexError on any input; exact characterisation of acceptance; the defaults are idempotent; and the route is no excuse: for a fresh input file and for a restart file at any step (setup_from, both values of 'has a [current] table') an invalid configuration gets a configuration error and never reaches sampling, a restart that goes on is treated exactly like a fresh start, and no answer (None) is given only for a finished run or a missing stored path. The model is tied to /repo by running it and the real check_config/setup_config on the same configurations (all interface lists up to length 4 over 4 values x workers x move lists x caps x lambda_minus_one x quantis x engines defined/undefined, random engine tables) and by evaluating the property's list directly on the implementation's outcome; the restart fixed point is checked on files written by the real write_toml. Restart route: restart.toml files written by the real write_toml (about 100 accepted random configurations, quick tier) and left behind by 6 real runs of the program on the lattice engine (completed and stopped with jobs in flight) are edited as a user would - every position of every class of the property's list (workers; interfaces swapped / duplicated / reversed / cut to 0 or 1 / one added; shooting moves dropped; cap below, on, between and above every interface, alone and with each ensemble made wire fencing; undefined engine per ensemble, engine table removed; lambda_minus_one on/above lambda_0), harmless edits (more steps only, fewer workers, ...) and random replacements of all validated fields - written back with tomli_w and handed to the real setup_config by each route (restart.toml as input; infretis.toml + equal restart.toml; [current] stripped): an invalid edit must raise TOMLConfigError with the stored paths untouched, the outcome must equal the model's setup_from, and the plain continuation of every real run (steps raised only) must be accepted and run on to the end. Order of normalisation and validation (the validity of a file can depend on what setup_config itself fills in: quantis = true without ensemble_engines gives [0-] the engine 'engine0', which then needs a table): the model composes the six default-filling statements in program order and validates last (C18_setup_config / C18_setup_any_route: the verdict IS check_config (normalise c), and an accepted quantis file without an engine list has a table [engine0]; C18_example_order refutes the variant that validates first); the check enumerates quantis {absent,false,true} x [engine0] {present,absent,misnamed} x [engine] {present,absent} x ensemble_engines {absent, [], all engine, engine0 first, engine0 last, both, undefined name} x lambda_minus_one {absent,false,-1.5,0.0,=interfaces[0]} x seed {absent,given} x accept_all {absent,given} (workers 1/n-1/n in turn) on 3 lattice set-ups (quick; 6 thorough) in which the program has really run, each as a fresh input file and as the edited restart file of that run (given as input / next to an equal infretis.toml): invalid after the documented defaults => TOMLConfigError with the stored paths untouched, outcome and returned configuration == the model's setup_from, and EVERY accepted configuration is taken through the real setup_internal (REPEX state, ensembles, stored paths and weights, engines, order parameters) and the first `workers` picks (initiate/prep_md_items) - any exception there, a missing engine object, a zero own-ensemble weight or a pick outside the ensembles is a violation with that file as input.",
-    "note": "Trusted: Coq kernel; extraction (ExtrOcamlBasic) + OCaml driver; this harness (generators, encoders, the Python oracle — cross-checked on every case against the model's validb, which is proved equivalent to the Coq predicate valid). 'Leaving a wire-fencing ensemble no room' is read as: some ensemble i < n_ens with move 'wf' has interface_cap <= interfaces[max(i-1,0)] (its region [interface, cap) is empty). Required keys (simulation.interfaces, shooting_moves, tis_set, runner.workers, output.data_dir) are assumed present and of the right type; numbers are ints/dyadic floats so comparisons are exact. 'Accepted configurations initialise' is checked with real engines only: for every accepted configuration of the order block (lattice plug-in engine; about 1800 per quick run) through setup_internal and the first picks, and for the plain continuation of the real runs of the restart route through to the end of the run; the random input files of the setup_config block name gromacs/turtlemd tables without input files and are not started. The explicit ensemble_engines lists of the order block have one entry per interface (check_config does not validate the length of that list; outside the property's list, not explored here). Restart route: 'before sampling starts' is observed at setup_config (infretis.bin.internalrun / infretisrun hand whatever it returns straight to the scheduler; a None return ends the program), a finished run (cstep == steps) or a missing stored path makes setup_config return None before any check - modelled (setup_from = None), no sampling, not counted as a rejection; the stub-written restart files carry an empty frac table and a fresh rng state, the real-run ones are exactly what the program left. Observation outside the property's list: quantis together with lambda_minus_one = 0.0 is accepted (0.0 is falsy in 'quantis and lambda_minus_one'); modelled faithfully, not reported.",
+    "text": "Unbounded theorems (any interface list over Q, worker count, move list, cap, lambda_minus_one, quantis, engine lists and tables): accepted => valid; invalid => configuration error that truthfully names a violated clause, never acceptance, never another exception; no IndexError on any input; exact characterisation of acceptance; the property's list has nine clauses, the ninth being an ensemble_engines entry for every ensemble: an explicit list shorter than the interfaces is a configuration error, by check_config and through setup_config by either route (C18_short_engine_list_rejected, C18_setup_short_engine_list_invalid), longer lists are fine, the default list has exactly one entry per interface (C18_default_engine_list_length), and for every accepted configuration each of the n ensembles finds its entry at the first picks and every engine named there has a table (C18_accepted_picks_defined: prep_md_items' ens_engs[ens_num + 1] is in range); the code before that repair differs only on short lists, accepted three interfaces with ensemble_engines = [['engine']] by either route and left ensembles [0+], [1+] without an entry (C18_before_fix_differs_only_on_short_lists, C18_before_fix_accepts, C18_short_engine_list_before_fix_refuted); the defaults are idempotent; and the route is no excuse: for a fresh input file and for a restart file at any step (setup_from, both values of 'has a [current] table') an invalid configuration gets a configuration error and never reaches sampling, a restart that goes on is treated exactly like a fresh start, and no answer (None) is given only for a finished run or a missing stored path. The model is tied to /repo by running it and the real check_config/setup_config on the same configurations (all interface lists up to length 4 over 4 values x workers x move lists x caps x lambda_minus_one x quantis x engines defined/undefined, explicit ensemble_engines lists of every length 0..n+1 for every interface list, random engine lists and tables) and by evaluating the property's list directly on the implementation's outcome; the restart fixed point is checked on files written by the real write_toml. Restart route: restart.toml files written by the real write_toml (about 100 accepted random configurations, quick tier) and left behind by 6 real runs of the program on the lattice engine (completed and stopped with jobs in flight) are edited as a user would - every position of every class of the property's list (workers; interfaces swapped / duplicated / reversed / cut to 0 or 1 / one added; shooting moves dropped; cap below, on, between and above every interface, alone and with each ensemble made wire fencing; undefined engine per ensemble, engine table removed, the engine list cut / extended to every length 0..n+1; lambda_minus_one on/above lambda_0), harmless edits (more steps only, fewer workers, ...) and random replacements of all validated fields - written back with tomli_w and handed to the real setup_config by each route (restart.toml as input; infretis.toml + equal restart.toml; [current] stripped): an invalid edit must raise TOMLConfigError with the stored paths untouched, the outcome must equal the model's setup_from, and the plain continuation of every real run (steps raised only) must be accepted and run on to the end. Order of normalisation and validation (the validity of a file can depend on what setup_config itself fills in: quantis = true without ensemble_engines gives [0-] the engine 'engine0', which then needs a table): the model composes the six default-filling statements in program order and validates last (C18_setup_config / C18_setup_any_route: the verdict IS check_config (normalise c), and an accepted quantis file without an engine list has a table [engine0]; C18_example_order refutes the variant that validates first); the check enumerates quantis {absent,false,true} x [engine0] {present,absent,misnamed} x [engine] {present,absent} x ensemble_engines {absent, [], all engine, engine0 first, engine0 last, both, undefined name, ['engine'] x k for every other length k in 1..n+1} x lambda_minus_one {absent,false,-1.5,0.0,=interfaces[0]} x seed {absent,given} x accept_all {absent,given} (workers 1/n-1/n in turn) on 3 lattice set-ups (quick; 6 thorough) in which the program has really run, each as a fresh input file and as the edited restart file of that run (given as input / next to an equal infretis.toml): invalid after the documented defaults => TOMLConfigError with the stored paths untouched, outcome and returned configuration == the model's setup_from, and EVERY accepted configuration is taken through the real setup_internal (REPEX state, ensembles, stored paths and weights, engines, order parameters) and the first `workers` picks (initiate/prep_md_items) - any exception there, a missing engine object, a zero own-ensemble weight or a pick outside the ensembles is a violation with that file as input.",
+    "note": "Trusted: Coq kernel; extraction (ExtrOcamlBasic) + OCaml driver; this harness (generators, encoders, the Python oracle — cross-checked on every case against the model's validb, which is proved equivalent to the Coq predicate valid). 'Leaving a wire-fencing ensemble no room' is read as: some ensemble i < n_ens with move 'wf' has interface_cap <= interfaces[max(i-1,0)] (its region [interface, cap) is empty). Required keys (simulation.interfaces, shooting_moves, tis_set, runner.workers, output.data_dir) are assumed present and of the right type; numbers are ints/dyadic floats so comparisons are exact. 'Accepted configurations initialise' is checked with real engines only: for every accepted configuration of the order block (lattice plug-in engine; about 1800 per quick run) through setup_internal and the first picks, and for the plain continuation of the real runs of the restart route through to the end of the run; the random input files of the setup_config block name gromacs/turtlemd tables without input files and are not started. Explicit ensemble_engines lists: every length 0..n+1 in all blocks; the empty list counts as absent (defaults), shorter than the interfaces = invalid (clause 'an entry per ensemble': the first pick of an ensemble without an entry raised IndexError in prep_md_items before proposed_fixes/C18_short_ensemble_engines.diff), longer = valid and taken through setup_internal and the first picks in the order block (about 2900 accepted configurations per quick run). Variant of the code under test: C18 has no generated-parameter file (py/params_c*.py); the check probes the real check_config ONCE (3 interfaces, ensemble_engines = [['engine']], all else valid): TOMLConfigError (or anything but acceptance) => the lock-step uses the model with the length test (check_config_g true, the model of every theorem); accepted => it uses check_config_g false (= check_config_before_fix, requests cfg0/setup0) so that the lock-step stays meaningful, while the oracle - which never depends on the probe - reports every accepted short list as a violation with the file as failing input (preferring as witness a file that was accepted and then failed in the first picks); the probe's answer is recorded in coverage.correspondence.variant. Restart route: 'before sampling starts' is observed at setup_config (infretis.bin.internalrun / infretisrun hand whatever it returns straight to the scheduler; a None return ends the program), a finished run (cstep == steps) or a missing stored path makes setup_config return None before any check - modelled (setup_from = None), no sampling, not counted as a rejection; the stub-written restart files carry an empty frac table and a fresh rng state, the real-run ones are exactly what the program left. Observation outside the property's list: quantis together with lambda_minus_one = 0.0 is accepted (0.0 is falsy in 'quantis and lambda_minus_one'); modelled faithfully, not reported.",
     "design_ref": "4/C18",
 }
 LEVEL = "proof"
@@ -106,6 +112,31 @@ def _enc_section(name, sec):
     return f"{NAMES(name)}:{cls}:{inp}:{RESTS(json.dumps(rest, sort_keys=True, default=str))}"
 
 
+# Which check_config does the tree under test have?  The model carries both: the code with the
+# length test on ensemble_engines (proposed_fixes/C18_short_ensemble_engines.diff; requests cfg /
+# setup = check_config_g true, what every theorem is about) and the code before it (requests cfg0 /
+# setup0 = check_config_g false, refuted by C18_short_engine_list_before_fix_refuted).  There is no
+# generated-parameter file for C18; the variant is found by ONE probing call of the real
+# check_config (`probe_variant`).  Only the lock-step depends on it: the oracle always demands the
+# repaired behaviour, so a tree without the test is reported by the oracle with a failing input.
+VARIANT = {"fixed": True, "probe": None}
+
+
+def probe_variant():
+    """three interfaces, ensemble_engines = [["engine"]], everything else valid: the repaired
+    check_config answers with TOMLConfigError; accepted outright = the code before the repair.
+    Any other answer keeps the repaired model (and shows up in the lock-step)."""
+    cfg = build([0, 1, 2], 1, ["sh"] * 3, A, A, A, True)
+    cfg["simulation"]["ensemble_engines"] = [["engine"]]
+    VARIANT["probe"] = real_check(cfg)
+    VARIANT["fixed"] = VARIANT["probe"] != "OK"
+    return VARIANT["fixed"]
+
+
+def cmd(name):
+    return name if VARIANT["fixed"] else name + "0"
+
+
 def encode(cfg, extra_keys=()):
     """request line for the model from a configuration dict as check_config would see it
     (extra_keys: top-level keys setup_config adds before checking)"""
@@ -125,7 +156,7 @@ def encode(cfg, extra_keys=()):
     keys = list(cfg.keys()) + [k for k in extra_keys if k not in cfg]
     secs = ";".join(enc_section(k, cfg.get(k, {})) for k in keys) or "-"
     return " ".join([
-        "cfg",
+        cmd("cfg"),
         ",".join(qs(x) for x in intf) if intf else "-",
         str(cfg["runner"]["workers"]),
         "".join("w" if m == "wf" else "s" for m in moves) if moves else "-",
@@ -148,6 +179,7 @@ MSG_KIND = [
     ("Too many workers", "Workers"),
     ("not sorted", "Unsorted"),
     ("duplicate", "Duplicate"),
+    ("N_ensemble_engines", "EngineListShort"),
     ("N_interfaces", "Moves"),
     ("wire fencing ensemble", "CapWf"),
     ("> interface[-1]", "CapHigh"),
@@ -255,6 +287,8 @@ def invalid_reasons(cfg, extra_keys=()):
             if moves[i] == "wf" and not intf[max(i - 1, 0)] < cap:
                 why.append(f"interface cap leaves wire-fencing ensemble {i} no room")
                 break
+    if "ensemble_engines" in sim and len(sim["ensemble_engines"]) < n:
+        why.append("fewer ensemble_engines entries than ensembles")
     keys = set(cfg.keys()) | set(extra_keys)
     if any(e not in keys for ens in sim.get("ensemble_engines", []) for e in ens):
         why.append("undefined engine")
@@ -309,6 +343,16 @@ def build(intf, workers, moves, cap, lm1, quantis, eng_ok):
     return cfg
 
 
+EE_SHAPES = ("engine", "engine0-first", "pair")
+
+
+def engine_list(length, shape):
+    """an explicit ensemble_engines list with `length` entries"""
+    if shape == "pair":
+        return [["engine", "engine0"] for _ in range(length)]
+    return [["engine0"] if (i == 0 and shape == "engine0-first") else ["engine"] for i in range(length)]
+
+
 def gen_small_scope(ctx):
     """Exhaustive blocks (the others fields drawn from the seeded rng)."""
     rng = ctx.rng
@@ -346,6 +390,21 @@ def gen_small_scope(ctx):
                         for q in ((False, True) if not thorough else (A, False, True)):
                             for eng_ok in (True, False):
                                 yield ("C", build(intf, w, mv, cap, lm1, q, eng_ok))
+    # block L: explicit ensemble_engines lists of EVERY length 0 .. n+1 for every interface list
+    # (a list shorter than the interfaces leaves an ensemble without an entry); entries name
+    # defined engines (and, as a further factor, engines without a table); the rest mostly valid
+    for intf in lists:
+        n = len(intf)
+        for length in range(0, n + 2):
+            for shape in EE_SHAPES:
+                for q in (A, False, True):
+                    for eng_ok in (True, False):
+                        for w in sorted({1, max(n - 1, 0)}):
+                            cap = rng.choice([A, A, intf[-1] if intf else A, rng.choice(caps)])
+                            cfg = build(intf, w, ["sh"] * (n + rng.choice([0, 0, 0, 1])), cap,
+                                        rng.choice([A, False, -1]), q, eng_ok)
+                            cfg["simulation"]["ensemble_engines"] = engine_list(length, shape)
+                            yield ("L", cfg)
     if thorough:
         # block D: the full product over all lists, sampled
         for intf in lists + [list(t) for t in itertools.product(VALS, repeat=5)]:
@@ -428,8 +487,10 @@ def raw_toml_case(ctx):
     if r < 0.15:
         sim["ensemble_engines"] = []
     elif r < 0.4:
+        # any length 0 .. n+1: one entry per interface, more, or fewer
+        ne = rng.choice([n, n, n, n + 1, max(n - 1, 0), rng.randrange(0, n + 2)])
         sim["ensemble_engines"] = [[rng.choice(["engine", "engine0", "engine1", "current", "nowhere"])
-                                    for _ in range(rng.choice([1, 1, 2]))] for _ in range(n)]
+                                    for _ in range(rng.choice([1, 1, 2]))] for _ in range(ne)]
     w = rng.choice([0, 1, 1, max(n - 1, 0), max(n - 1, 0), n, 4])
     cfg = {"runner": {"workers": w}, "simulation": sim, "output": {"data_dir": "./", "screen": 1}}
     for name in ("engine", "engine0", "engine1"):
@@ -437,6 +498,27 @@ def raw_toml_case(ctx):
             cfg[name] = {"class": rng.choice(["turtlemd", "turtlemd", "gromacs"]),
                          "input_path": rng.choice(["p", "q"]), "timestep": rng.choice([1, 2])}
     return cfg
+
+
+def engine_length_files():
+    """input files with an explicit ensemble_engines list of every length 0 .. n+1 (n = 2, 3, 4
+    interfaces), all engines defined, everything else valid"""
+    out = []
+    for n in (2, 3, 4):
+        intf = [0, 0.5, 1, 1.5][:n]
+        for length in range(0, n + 2):
+            for shape in EE_SHAPES:
+                for q in (A, False, True):
+                    for w in sorted({1, n - 1}):
+                        tis = {} if q is A else {"quantis": q}
+                        cfg = {"runner": {"workers": w},
+                               "simulation": {"interfaces": list(intf), "shooting_moves": ["sh"] * n, "tis_set": tis,
+                                              "steps": 10, "ensemble_engines": engine_list(length, shape)},
+                               "output": {"data_dir": "./", "screen": 1}}
+                        for name in ("engine", "engine0"):
+                            cfg[name] = {"class": "turtlemd", "input_path": "p", "timestep": 1}
+                        out.append(cfg)
+    return out
 
 
 def documented_defaults(raw):
@@ -645,6 +727,13 @@ def restart_edits(written, rng, n_random=0):
     for name in sorted({e for ens in ee for e in ens}):
         if name in written and name not in NON_ENGINE_KEYS:
             out.append((f"table [{name}] removed", "engine", lambda c, name=name: c.pop(name)))
+    # the engine list cut / extended to every length 0 .. n+1 (entries kept, padded with the last)
+    pad = list(ee[-1]) if ee else ["engine"]
+    for k in range(0, n + 2):
+        if k != len(ee):
+            new = [list(x) for x in ee[:k]] + [list(pad) for _ in range(k - len(ee))]
+            out.append((f"ensemble_engines {'cut' if k < len(ee) else 'extended'} to {k} entries ({json.dumps(new)})",
+                        "engine-length", _set(("simulation", "ensemble_engines"), new)))
     out.append(("ensemble_engines removed", "engine-default", lambda c: c["simulation"].pop("ensemble_engines", None)))
     # lambda_minus_one
     if intf:
@@ -728,7 +817,7 @@ def setup_request(edited, route, paths_present=True):
     cur = "N" if route == "fresh" else f"{edited['current']['cstep']}:{1 if paths_present else 0}"
     extra = ("current",) if route == "fresh" else ()
     plain = {k: v for k, v in edited.items() if k != "current"} if route == "fresh" else edited
-    return " ".join(["setup", str(edited["simulation"]["steps"]), cur] + encode(plain, extra).split(" ")[1:])
+    return " ".join([cmd("setup"), str(edited["simulation"]["steps"]), cur] + encode(plain, extra).split(" ")[1:])
 
 
 def tree_state(d, load_dir="load"):
@@ -957,7 +1046,9 @@ def order_variations(base, tier):
     ws = sorted({1, n - 1, n})
     out = []
     k = 0
-    for q, e0, e, ee, lm1, sd, aa in itertools.product(ORDER_Q, ORDER_E0, ORDER_E, ORDER_EE, lm1s, ORDER_SEED, ORDER_AA):
+    # explicit lists of every length 0 .. n+1: "empty" is 0, "engine" is n, the others are len<k>
+    ees = ORDER_EE + tuple(f"len{k}" for k in range(1, n + 2) if k != n)
+    for q, e0, e, ee, lm1, sd, aa in itertools.product(ORDER_Q, ORDER_E0, ORDER_E, ees, lm1s, ORDER_SEED, ORDER_AA):
         for w in (ws if tier == "thorough" else [ws[k % len(ws)]]):
             out.append((k, {"q": q, "e0": e0, "e": e, "ee": ee, "lm1": lm1, "seed": sd, "aa": aa, "w": w}))
             k += 1
@@ -971,6 +1062,8 @@ def order_engine_lists(kind, n):
         return []
     if kind == "engine":
         return [["engine"] for _ in range(n)]
+    if kind.startswith("len"):
+        return [["engine"] for _ in range(int(kind[3:]))]        # whatever the number of interfaces
     if kind == "engine0-first":
         return [["engine0"]] + [["engine"] for _ in range(n - 1)]
     if kind == "engine0-last":
@@ -993,6 +1086,8 @@ def order_label(var):
         out.append("no table [engine]")
     if var["ee"] == "absent":
         out.append("no ensemble_engines")
+    elif var["ee"].startswith("len"):
+        out.append(f"ensemble_engines = {json.dumps(order_engine_lists(var['ee'], 0))}")
     else:
         out.append(f"ensemble_engines = {json.dumps(order_engine_lists(var['ee'], 3))}" + (" (for 3 interfaces)" if var["ee"] != "empty" else ""))
     for key, name in (("lm1", "lambda_minus_one"), ("seed", "seed"), ("aa", "accept_all")):
@@ -1263,7 +1358,9 @@ def _run(ctx, runner, tally, under_test):
                 tally.add(("prop-restart", it["base_kind"] == "order", route != "fresh", re.sub(r"\d+", "#", why[0]), oc),
                           what, dict(payload, expected="TOMLConfigError", **({"then": init} if init is not None else {})), True,
                           # witness: a single edit breaking a single clause, on a real run's file, if there is one
-                          rank=10 ** 7 * (len(why) - 1) + 10 ** 6 * (it["cls"] == "overlay") + 10 ** 5 * (it["base_kind"] == "stub"))
+                          # (and, first of all, one that was accepted and then failed to initialise)
+                          rank=10 ** 7 * (len(why) - 1) + 10 ** 6 * (it["cls"] == "overlay") + 10 ** 5 * (it["base_kind"] == "stub")
+                          - 10 ** 9 * (init is not None and not init["ok"]))
                 rr["disagreements"] += outcome_class(m_res) != oc
                 continue
             if outcome_class(m_res) != oc:
@@ -1311,6 +1408,14 @@ def _run(ctx, runner, tally, under_test):
                   {"mode": mode, "config": cfg, "case": case, "error": res["run_failed"],
                    "expected": "accepted configurations initialise and run"}, found)
 
+    # ---------------- which variant of check_config is under test (one probing call)
+    under_test.update(mode="check_config", step="probing check_config for the ensemble_engines length test")
+    probe_variant()
+    stats["variant"] = {
+        "probe": "check_config on 3 interfaces with ensemble_engines = [['engine']] (all else valid) -> " + str(VARIANT["probe"]),
+        "model_used_for_the_lock_step": "check_config_g true (with the length test; requests cfg/setup)" if VARIANT["fixed"] else
+        "check_config_g false = check_config_before_fix (requests cfg0/setup0): the tree under test lacks "
+        "proposed_fixes/C18_short_ensemble_engines.diff; the oracle demands the repaired behaviour"}
     # ---------------- direct check_config: exhaustive small scope + random engine tables
     chunk = []
 
@@ -1338,8 +1443,10 @@ def _run(ctx, runner, tally, under_test):
     try:
         os.chdir(d)
         batch, norm_reqs, norm_meta = [], [], []
-        for i in range(nsetup):
-            raw = raw_toml_case(ctx)
+        length_files = engine_length_files()
+        stats["engine_length_files"] = len(length_files)
+        for i in range(nsetup + len(length_files)):
+            raw = raw_toml_case(ctx) if i < nsetup else length_files[i - nsetup]
             under_test.update(mode="setup_config", step="setup_config on a fresh input file / restart round trip", config=raw)
             real, cfg = real_setup(raw, d)
             # what check_config sees inside setup_config: raw + defaults (+ "current"); the model
@@ -1412,10 +1519,10 @@ def _run(ctx, runner, tally, under_test):
                 tally.add(("corr-norm",), "correspondence broken: defaults filled in by setup_config differ from the model's normalise",
                           {"mode": "setup_config", "config": raw, "impl": enc, "model": m_norm,
                            "correspondence": "normalise vs setup_config defaults"}, False)
-            again.append("cfg " + m_norm)
+            again.append(cmd("cfg") + " " + m_norm)
         for req, out in zip(again, runner.run(again)):
             ctx.count("idem " + req, nontrivial=True)
-            if " ".join(out.split(" ")[4:]) != req[4:]:
+            if " ".join(out.split(" ")[4:]) != " ".join(req.split(" ")[1:]):
                 tally.add(("idem",), "extracted normalise is not idempotent on a normalised configuration",
                           {"mode": "model", "config": req, "model": out, "obligation": "C18_normalise_idempotent (extraction)"}, False)
         stats["wall_s"]["setup_config"] = round(time.time() - t0, 1)
@@ -1545,14 +1652,15 @@ def _run(ctx, runner, tally, under_test):
         f"{[c for c in CAPS]} x all move lists of length 0-5 over {{sh,wf}} (workers, lambda_minus_one, quantis, engines defined drawn from the seeded rng); "
         "block B = all interface lists x lambda_minus_one {absent,false,-1,0,1} x quantis {absent,off,on} x workers 0-4 x engines defined/undefined; "
         "block C = every strictly increasing list with the product of workers x moves x caps x lambda_minus_one x quantis x engines "
-        "(full product; thorough adds caps 2.5/3.5, lambda_minus_one -0.5/0.5/2, quantis absent, and block D = all lists up to length 5 x workers x caps x lambda_minus_one with 4 random move lists each); random engine lists/tables (gromacs input_path clashes, missing class/input_path, undefined names); "
-        f"{nsetup} random input files through the real setup_config (TOML in a scratch directory), restart round trip (real write_toml, two re-reads) on every 2nd accepted one. "
+        "(full product; thorough adds caps 2.5/3.5, lambda_minus_one -0.5/0.5/2, quantis absent, and block D = all lists up to length 5 x workers x caps x lambda_minus_one with 4 random move lists each); "
+        "block L = all interface lists x explicit ensemble_engines of EVERY length 0..n+1 x {all 'engine', 'engine0' first, two engines per entry} x quantis {absent,off,on} x engines defined/undefined x workers {1,n-1}; random engine lists/tables (lengths n-1, n, n+1) (gromacs input_path clashes, missing class/input_path, undefined names); "
+        f"{nsetup} random input files (explicit ensemble_engines of any length 0..n+1 in a quarter of them) and {stats['engine_length_files']} systematic ones (2-4 interfaces x every list length 0..n+1 x 3 entry shapes x quantis x workers, engines defined) through the real setup_config (TOML in a scratch directory), restart round trip (real write_toml, two re-reads) on every 2nd accepted one. "
         f"Restart route: {stats['restart_route']['stub_written_files']} restart files written by the real write_toml (from every other accepted one of these, at a random step) "
         f"and {stats['restart_route']['real_runs']} left behind by real runs on the lattice engine, each edited in every position of every class of the property's list, "
         "harmlessly, and by random replacement of all validated fields, then handed to the real setup_config as restart.toml / as infretis.toml + equal "
         "restart.toml / without [current]; plus a finished run and a missing stored path (no answer) per file. "
         f"Order of normalisation and validation: on {stats['order_block']['bases']} lattice set-ups in which the program has really run, the full product quantis {{absent,false,true}} x "
-        "[engine0] {present,absent,misnamed} x [engine] {present,absent} x ensemble_engines {absent,[],engine,engine0 first,engine0 last,both,undefined} x "
+        "[engine0] {present,absent,misnamed} x [engine] {present,absent} x ensemble_engines {absent,[],engine,engine0 first,engine0 last,both,undefined, and ['engine'] x k for every other length k in 1..n+1} x "
         "lambda_minus_one {absent,false,-1.5,0.0,0.5=interfaces[0]} x seed {absent,7} x accept_all {absent,true} (workers 1/n-1/n in turn; a further factor in the thorough tier), "
         f"each as a fresh file and as the edited restart file of the run ({stats['order_block']['configurations']} files); the "
         f"{stats['order_block']['taken_through_setup_internal_and_first_picks']} accepted ones went through the real setup_internal and the first picks. "
@@ -1577,6 +1685,7 @@ def _run(ctx, runner, tally, under_test):
 
 def replay(doc):
     print(json.dumps(doc, indent=1))
+    probe_variant()
     rp = doc["replay"]
     cfg = rp.get("config")
     mode = rp.get("mode")
